@@ -166,7 +166,23 @@ def append_shape(ctx, prog, rule):
                 oko = d[0] == "binop" and d[1] == "Div" and is_self_field(d[2], "offset") and const_val(d[3]) == 8
     ctx.ob(rule, "append/offset-rebased", oko, "offset -= (offset / 8) * 8 (bit phase preserved)")
     ext = [strip(R.operand(t["args"][1])) for bi, t in f.calls(lambda c, t: c.endswith("extend_from_slice"))]
+    scratch_cleared(ctx, prog, rule)
     ctx.ob(rule, "append/new-data-last", len(ext) == 2 and ext[1] == ("param", 2), "the new packet bytes are appended after the kept tail")
+
+
+def scratch_cleared(ctx, prog, rule):
+    """append() assembles the new buffer in a scratch vector that is reused across calls: some vector must be emptied
+    on every path (the old buffer before it becomes the next scratch vector, or the scratch vector before it is
+    filled); without it the consumed bytes of an earlier packet come back."""
+    f = prog.fn("bs_read::ByteStreamReadBuffer::append")
+    R = Resolver(f)
+    clears = []
+    for bi, t in f.calls(lambda c, t: c.endswith("Vec::<T, A>::clear") or c.endswith("Vec::<T, A>::truncate")):
+        clears.append(bi)
+    # building a fresh vector instead of reusing one is fine as well
+    fresh = [bi for bi, t in f.calls(lambda c, t: c.endswith("Vec::<T>::new") or c.endswith("Vec::<T>::with_capacity") or c.endswith("::to_vec") or c.endswith("mem::take"))]
+    ok = bool(clears or fresh) and f.any_reachable(f.return_blocks(), removed=clears + fresh) is None
+    ctx.ob(rule, "append/scratch-cleared", ok, "every path through append() empties a vector (clear / truncate) or builds a fresh one: %d clear sites, %d fresh vectors" % (len(clears), len(fresh)))
 
 
 def zero_width_wiring(ctx, prog, rule):
